@@ -413,14 +413,9 @@ def from_dict(d: Dict[str, Any]) -> Derivation:
 # note that this regex doesn't have the initial open-parenthesis
 # (see _from_string())
 _udf_re = re.compile(
-    # regular node
-    r'\s*(?P<id>{token})\s+(?P<entity>{string}|{token})'
-    r'\s+(?P<score>{token})\s+(?P<start>{token})'
-    r'\s+(?P<end>{token})\s*\('
-    # branch end
-    r'|\s*(?P<done>\))'
-    # terminal node (lexical token info; unbound list)
-    r'|\s*(?P<form>{string})'
+    # terminal node (lexical token info; unbound list); this must be
+    # tried first as a quoted form may look like a regular node
+    r'\s*(?P<form>{string})'
     # anything after form is optional
     r'('
     # LKB-style start/end (e.g. ("word" 1 2) )
@@ -430,6 +425,12 @@ _udf_re = re.compile(
     r'|(?P<tokens>(?:\s+{token}\s+{string})*)'
     r')?'
     r'\s*\)'  # end terminal node
+    # regular node
+    r'|\s*(?P<id>{token})\s+(?P<entity>{string}|{token})'
+    r'\s+(?P<score>{token})\s+(?P<start>{token})'
+    r'\s+(?P<end>{token})\s*\('
+    # branch end
+    r'|\s*(?P<done>\))'
     # root symbol
     r'|\s*(?P<root>{token})\s*\(?'
     .format(token=r'[^\s()]+', string=r'"[^"\\]*(?:\\.[^"\\]*)*"')
